@@ -259,7 +259,9 @@ PROPERTIES = {
         functions=['structural_fields:Move.unpack', 'structural_fields:Move.pack',
                    # per-element alignment of repeated fields (call assertions) and the fill of skipped bytes
                    'structural_fields:Sequence.unpack', 'structural_fields:Sequence.pack',
-                   'fragments:Fragments.insert', 'fragments:Fragments.tobytes'],
+                   'fragments:Fragments.insert', 'fragments:Fragments.tobytes',
+                   # the reference point of relative positions: every field runs with innermost-pkt-pos = start of ITS packet
+                   'packet:Packet.unpack_impl', 'packet:Packet.pack_impl'],
         lemmas=['C10.move_target_unique'],
         trusted_base=_COMMON_TRUST,
         assumptions=['move targets are integers; alignment values are > 0 (precondition, outside the statement otherwise)',
